@@ -52,6 +52,9 @@ def cases(draw):
 
 def body(case):
     run = Run(case["recipe"], case["params"])
+    # runs pushed to the float resolution are the ones in which a degenerate interval can send the method or the
+    # queue into a loop that evaluates nothing: bound every call by executed lines
+    run.line_guard = case["params"]["eps"] < 1e-12
     steps = 0
     for op in case["ops"]:
         try:
